@@ -1,5 +1,5 @@
 SPEC = {
-    "claimed": False,
+    "claimed": True,
     "gen": ["teehistorian"],
     "theorems": ["C17_frag_generic", "C17_parsers_stable", "C17_fragmentation", "C17_total", "C17_ticks",
                  "C17_running_sums", "C17_sums_closed_form", "C17_pins", "C17_nonvacuous", "K17_pin"],
@@ -10,4 +10,33 @@ SPEC = {
     "components": [{"bin": "teehistorian", "driver": "drv_teehistorian",
                     "timeout": {"quick": 900, "thorough": 3000}}],
     "release": False,
+    "rule": "see components.teehistorian.rule",
+    "trusted_base": [
+        "Model/Teehistorian.v is hand-written from teehistorian/src/raw.rs and format/item.rs; the constant tables "
+        "(message ids, 20 extension UUIDs, field lists and cid-ness of the 23 pass-through structs, magic) are "
+        "regenerated from the Rust source by tools/gen_teehistorian.py, and the source text of every hand-modelled "
+        "function is pinned by hash (C17_pins fails when raw.rs / item.rs change there)",
+        "serde_json / chrono / str::parse on the header's JSON text are outside the model: an arbitrary function "
+        "`hdr` from the text to (version | HeaderError); the harness tells the model the value the real "
+        "format::read_header computed",
+        "Buffer compaction/growth depends on Vec capacity (allocator-dependent): modelled as one arbitrary boolean per "
+        "read; all theorems hold for every choice",
+        "memory use of VecMap is not modelled (known finding K17)",
+    ],
+    "assumptions": [
+        "a fresh Buffer (Buffer::new or clear) is passed to Reader::new",
+        "the read callback returns Ok (callback errors are passed through unchanged and end the session)",
+        "C17_ticks / C17_running_sums speak about sessions that end with Ok(None) (valid streams); "
+        "streams that end in an error are covered by C17_fragmentation and C17_total",
+        "memory allocation succeeds (see K17: client ids are not bounded)",
+    ],
+    "explanation": "frag_independent is proved once for any client of the buffer over prefix-stable parsers "
+                   "(induction over the fragment list), instantiated with the concrete header/kind/item parsers whose "
+                   "stability is proved (no hypothesis left); totality, tick nesting/numbering against the literally "
+                   "transcribed pseudo-code of doc/teehistorian.md and the running sums are proved for all streams and "
+                   "all read schedules. The model is tied to the code by running both on every generated stream under "
+                   "every fragmentation (full item text incl. the final error and max_cid) and by the translator.",
+    "level_text": "proof over all byte streams, all fragmentations (sizes, zero-length reads, compactions) and all "
+                  "header verdicts; correspondence on generated server histories, truncations, corruptions, garbage",
+    "level_note": "known finding K17 (unbounded client id => VecMap allocation) is outside the model and probed in a child process",
 }
